@@ -289,6 +289,10 @@ for _k in ('posit_small', 'posit_large', 'posit_fastset_fast', 'fixpnt_small', '
            'lns_small', 'lns_large', 'areal_all', 'quire_all', 'text_all', 'elastic_all', 'convcfg_p0', 'cfloat_s0', 'cfloat_s2', 'cfloat_s10',
            'cfloat_s11', 'dd_all'):
     DRIVERS[_k + '_san'] = {'src': DRIVERS[_k]['src'], 'flags': DRIVERS[_k].get('flags', []) + SAN}
+DRIVERS['capi_gen1'] = {'src': 'drv_capi.cpp', 'flags': ['-DCAPI_GENERIC=1']}
+DRIVERS['capi_gen2'] = {'src': 'drv_capi.cpp', 'flags': ['-DCAPI_GENERIC=2']}
+DRIVERS['capi_pure'] = {'src': 'drv_capi.cpp', 'flags': ['-DCAPI_PURE']}
+DRIVERS['capi_shim'] = {'src': 'drv_capi.cpp', 'flags': ['-DCAPI_SHIM']}
 DRIVERS['threads_tsan'] = {'src': 'drv_threads.cpp', 'flags': ['-fsanitize=thread', '-g1']}
 DRIVERS['programs_san'] = {'src': 'drv_threads.cpp', 'flags': SAN}
 CF_SMALL = ['cfloat_s0', 'cfloat_s1', 'cfloat_s2', 'cfloat_s3']
@@ -577,8 +581,10 @@ PLANS = {
         'rule': 'two builds of the same driver source (generic posit / POSIT_FAST_SPECIALIZATION) run on identical inputs and compared line by '
                 'line: all pairs x {+,-,*,/,6 comparisons}, all encodings x {reciprocal, abs, sqrt, ++, --, to float/double/int/long long}, '
                 'model-aimed native sources, for 2_0 3_0 3_1 4_0 8_0 8_1 8_2 (exhaustive) and 16_1 16_2 32_2 (structured sampling); the generic '
-                'build is also judged by the Coq model, which referees who is wrong. non-trivial = lines where the builds differ; table theorems: '
-                'generated from the specialised headers on every run',
+                'build is also judged by the Coq model, which referees who is wrong. The C API: the pure C posit8 / posit8_1 library and the C shim '
+                '(posit8/16/32/64) are called through their C entry points by one driver that is also built over the generic posit<n,es> and compared line '
+                'by line (all operand pairs for 8 bits; + - * / sqrt, six relations / cmp, from float/double/int/long long/unsigned, to float/double/int/long long). '
+                'non-trivial = lines where the builds differ; table theorems: generated from the specialised headers on every run',
         'assumptions': ['operations a fast specialisation does not offer (missing/ambiguous overloads) are skipped, not counted as differences'],
         'pregen': ['gen_tables.py'],
         'streams': [
@@ -589,6 +595,23 @@ PLANS = {
              'judge_ref': True, 'what': 'fast vs generic, structured sampling on 16_1 16_2 32_2',
              'runs': {'quick': [dict(args=['--mode', 'rnd', '--group', 'all1', '--count', '3000'], shards=3)],
                       'thorough': [dict(args=['--mode', 'rnd', '--group', 'all1', '--count', '100000'], shards=3)]}},
+        ] + [
+            {'name': 'capi_pure_%s' % g, 'kind': 'pair', 'driver': 'capi_gen1', 'driver2': 'capi_pure', 'compare': cmp_same, 'judge_ref': True,
+             'what': 'pure C posit8 / posit8_1 library (c_api/pure_c, posit_8_0.h, posit_8_1.h) vs generic posit<8,0> / posit<8,1>, every operand (pair), group ' + g,
+             'exhaustive': {'quick': True, 'thorough': True},
+             'runs': {'quick': [dict(args=['--mode', 'exh', '--group', g], shards=8)], 'thorough': [dict(args=['--mode', 'exh', '--group', g], shards=8)]}}
+            for g in ('arith', 'cmp', 'conv', 'sqrt')
+        ] + [
+            {'name': 'capi_shim_exh_%s' % g, 'kind': 'pair', 'driver': 'capi_gen2', 'driver2': 'capi_shim', 'compare': cmp_same, 'judge_ref': False,
+             'what': 'C shim (c_api/shim/posit/posit_c_api.cpp) posit8 vs generic posit<8,0>, every operand (pair), group ' + g,
+             'exhaustive': {'quick': True, 'thorough': True},
+             'runs': {'quick': [dict(args=['--mode', 'exh', '--group', g], shards=8)], 'thorough': [dict(args=['--mode', 'exh', '--group', g], shards=8)]}}
+            for g in ('arith', 'cmp', 'conv', 'sqrt')
+        ] + [
+            {'name': 'capi_shim_rnd_%s' % g, 'kind': 'pair', 'driver': 'capi_gen2', 'driver2': 'capi_shim', 'compare': cmp_same, 'judge_ref': False,
+             'what': 'C shim posit16 / posit32 / posit64 vs generic posit<16,1> <32,2> <64,3>, structured sampling, group ' + g,
+             'runs': {'quick': [dict(args=['--mode', 'rnd', '--group', g, '--count', str(q)], shards=3)], 'thorough': [dict(args=['--mode', 'rnd', '--group', g, '--count', str(20 * q)], shards=3)]}}
+            for g, q in (('arith', 3000), ('cmp', 2000), ('conv', 300), ('sqrt', 2000))
         ],
     },
     'C01': {
